@@ -24,9 +24,10 @@ from __future__ import annotations
 import ast
 from dataclasses import dataclass, field
 
-from ..astx import MUTATORS, atoms, call_name, dotted, enclosing_stmt, expand, facts_at, has_fact, last
+from ..astx import MUTATORS, atoms, call_name, dotted, expand, facts_at, has_fact, last
 from ..cfg import CFG, Node, exprs_in_node
 from ..index import AnchorError, FuncNode, ancestors, enclosing_function, parent, qualname_of, repo_root, walk_shallow
+from ..report import VERIF, Check
 from ..selftest import Twin
 
 EXPLANATION = (
@@ -410,7 +411,7 @@ def _premise(chk, repo, model: Model) -> None:
                 if isinstance(recv, ast.Attribute) and recv.attr == holder:
                     sites.append((f, x))
     chk.floor("C22.R1", f"awaits of {CLS} coroutines on `<workflow>.{holder}` in the step worker module (every step task shares the manager)", len(sites), 1)
-    chk.floor("C22.R1", f"`with <manager>.resolution_scope()` use sites", sum(model.cm_sites.values()), 1 if model.cm_sites else 0)
+    chk.floor("C22.R1", "`with <manager>.resolution_scope()` use sites", sum(model.cm_sites.values()), 1 if model.cm_sites else 0)
     chk.extra["sharing_premise"] = {"holder": f"Workflow.{holder}", "step_task_await_sites": [f"{ms.rel}:{x.lineno} ({qualname_of(f)})" for f, x in sites]}
 
 
@@ -437,11 +438,12 @@ def _store_attr(model: Model) -> str:
     return written.pop()
 
 
-def _r1(chk, model: Model, views: dict[str, MethodView], store: str, mediators: set[str] = frozenset()) -> None:
+def _r1(chk, model: Model, views: dict[str, MethodView], store: str, mediators: set[str] = frozenset(), floors: bool = True) -> None:
     m = model.m
     examined = 0
     susp_methods = [v for v in views.values() if v.susp]
-    chk.floor("C22.R1", f"methods of {CLS} that contain a suspension point", len(susp_methods), 2)
+    if floors:
+        chk.floor("C22.R1", f"methods of {CLS} that contain a suspension point", len(susp_methods), 2)
     for loc in model.locs:
         if loc.name == store and loc.kind in ("attr", "classattr"):
             continue
@@ -464,6 +466,7 @@ def _r1(chk, model: Model, views: dict[str, MethodView], store: str, mediators: 
                    m=m, node=loc.node, fn=enclosing_function(loc.node) if loc.node is not None else None, instance=loc.name)
             continue
         fired = False
+        locked: set[str] = set()
         for v in views.values():
             if not v.susp:
                 continue
@@ -488,6 +491,7 @@ def _r1(chk, model: Model, views: dict[str, MethodView], store: str, mediators: 
                         continue
                     lock, why = _lock_of(x1, x2, model, v.sn, per_key_ok=False)
                     if lock is not None:
+                        locked.add(lock)
                         continue
                     cand = (n1, ss[0], n2, k1, k2, why)
                     # prefer the most telling window: a write before the suspension
@@ -504,11 +508,28 @@ def _r1(chk, model: Model, views: dict[str, MethodView], store: str, mediators: 
                    reason=(f"`{loc.name}` is {_kw(k1)} at line {n1.line}, the coroutine suspends at line {s.line} (`{' '.join(ast.unparse(s.ast).split())[:60]}`), and it is {_kw(k2)} again at line {n2.line}; "
                            f"another step task runs `{v.name}` on the same object in between" + (f"; {why}" if why else "")),
                    path=_desc(v, p1 + p2[1:]))
-        # every other writer must be under the same lock: covered by requiring the lock on each window; here the location-level summary
+        # a lock only protects the window if every other writer of the location takes it too (also plain `def` methods:
+        # they run while the lock holder is suspended)
+        if locked:
+            for v in views.values():
+                al = _aliases(v.fn, v.sn, loc)
+                for n in v.cfg.nodes:
+                    if n.ast is None:
+                        continue
+                    for x, k in _occurrences(n, v.sn, loc, al):
+                        if "W" not in k:
+                            continue
+                        lk, _why = _lock_of(x, x, model, v.sn, per_key_ok=False)
+                        if lk not in locked:
+                            fired = True
+                            chk.ob("C22.R1", f"every writer of `{loc.name}` holds the lock that protects its await windows", False, m=m, node=x, fn=v.fn,
+                                   instance=f"{loc.name}:unlocked-writer",
+                                   reason=f"`{v.name}` writes `{loc.name}` at line {n.line} without `async with self.{sorted(locked)[0]}` while another task may be suspended inside the locked window")
         if not fired:
             chk.ob("C22.R1", f"`{loc.name}` ({loc.kind}) is never held across a suspension point (or only under one shared lock / keyed by the current task)", True,
                    m=m, node=loc.node, fn=enclosing_function(loc.node) if loc.node is not None else None, instance=loc.name)
-    chk.floor("C22.R1", "state locations examined (instance / class attributes, module state used by the methods; the persistent store is R2's)", examined + 1, 1)
+    if floors:
+        chk.floor("C22.R1", "state locations examined (instance / class attributes, module state used by the methods; the persistent store is R2's)", examined + 1, 1)
 
 
 def _kw(k: str) -> str:
@@ -813,7 +834,26 @@ def run(chk) -> None:
                                 "state_locations": [f"{l.kind}:{l.name}:{l.nature}" for l in model.locs], "persistent_store": store}
     mediators = _r2(chk, model, views, store)
     _r1(chk, model, views, store, mediators)
+    _planted(chk)
     _r5(chk, model, views, store)
+
+
+def _planted(chk) -> None:
+    """Sub-rules of R1 that match nothing in the pinned tree (shared ContextVar default, module-global state) are run on a
+    planted fixture on every run and must report it."""
+    fx = VERIF / "fixtures" / "c22" / "shared_state.py"
+    if not fx.is_file():
+        raise AnchorError(f"C22.R1: fixture {fx} missing")
+    variant = chk.repo.with_overlay({_P: fx.read_text(encoding="utf-8")})
+    model = _build_model(variant)
+    views = {n: MethodView(model, n, f) for n, f in model.methods.items() if n != "__init__" and _self_name(f) is not None}
+    scratch = Check("C22", variant, quiet=True, write=False)
+    _r1(scratch, model, views, _store_attr(model), set(), floors=False)
+    got = {o.key.rsplit("|", 1)[1] for o in scratch.violations()}
+    want = {"taskLocal-default:_CHAIN", "_SEEN"}
+    if not want <= got:
+        raise AnchorError(f"C22.R1: planted shared-state constructs not reported (reported {sorted(got)})")
+    chk.floor("C22.R1", "planted constructs reported in fixtures/c22/shared_state.py (shared ContextVar default, module-global table)", len(want & got), 2)
 
 
 # ------------------------------------------------------------------------------------------- twins
@@ -888,51 +928,7 @@ _FIXED_CLASS = '''class ResourceManager:
             return self.resources[resource.name]
         if resource.name in state.cache:
             return state.cache[resource.name]
-        if not resource.cache:
-            return await self._create(resource, state)
-        async with self._creating.setdefault(resource.name, asyncio.Lock()):
-            if resource.name in self.resources:
-                return self.resources[resource.name]
-            val = await self._create(resource, state)
-            await self.set(resource.name, val)
-            return val
-
-    async def _create(self, resource: ResourceDescriptor, state: _Resolution) -> Any:
-        resolving = state.resolving
         resolving.append(resource.name)
-        try:
-            val = await resource.resolve(self)
-            state.cache[resource.name] = val
-            return val
-        finally:
-            resolving.remove(resource.name)
-
-    def get_all(self) -> dict[str, Any]:
-        """Return all materialized resources."""
-        return self.resources
-'''
-
-# The repaired class keeps the cycle test and the push in different methods; R5 binds the chain per method, so the
-# repaired twin used for the self-test keeps them together (same behaviour):
-_FIXED_CLASS = _FIXED_CLASS.replace('''        if not resource.cache:
-            return await self._create(resource, state)
-        async with self._creating.setdefault(resource.name, asyncio.Lock()):
-            if resource.name in self.resources:
-                return self.resources[resource.name]
-            val = await self._create(resource, state)
-            await self.set(resource.name, val)
-            return val
-
-    async def _create(self, resource: ResourceDescriptor, state: _Resolution) -> Any:
-        resolving = state.resolving
-        resolving.append(resource.name)
-        try:
-            val = await resource.resolve(self)
-            state.cache[resource.name] = val
-            return val
-        finally:
-            resolving.remove(resource.name)
-''', '''        resolving.append(resource.name)
         try:
             if not resource.cache:
                 val = await resource.resolve(self)
@@ -946,9 +942,89 @@ _FIXED_CLASS = _FIXED_CLASS.replace('''        if not resource.cache:
             return val
         finally:
             resolving.remove(resource.name)
-''')
 
-_IMPORTS_OLD = "import functools\nimport inspect\n"
+    def get_all(self) -> dict[str, Any]:
+        """Return all materialized resources."""
+        return self.resources
+'''
+
+# the patch proposed for C22.R1 (task-local bookkeeping only; creation of cached resources is still unguarded -> R2 keeps firing)
+_PATCH_R1 = '''class _Resolution:
+    """Bookkeeping of one dependency resolution (task-local)."""
+
+    __slots__ = ("manager", "resolving", "cache")
+
+    def __init__(self, manager: ResourceManager) -> None:
+        self.manager = manager
+        self.resolving: list[str] = []  # Track resources being resolved in order
+        self.cache: dict[str, Any] = {}
+
+
+_RESOLUTION: ContextVar[_Resolution | None] = ContextVar(
+    "workflows_resource_resolution", default=None
+)
+
+
+class ResourceManager:
+    """Manage resource lifecycles and caching across workflow steps."""
+
+    def __init__(self) -> None:
+        self.resources: dict[str, Any] = {}
+
+    @contextmanager
+    def resolution_scope(self) -> Iterator[None]:
+        """Scope non-cached resolution values to a single dependency graph."""
+        current = _RESOLUTION.get()
+        if current is not None and current.manager is self:
+            # Nested scope in the same task: share the outer resolution.
+            yield
+            return
+        token = _RESOLUTION.set(_Resolution(self))
+        try:
+            yield
+        finally:
+            _RESOLUTION.reset(token)
+
+    async def set(self, name: str, val: Any) -> None:
+        """Register a resource instance under a name."""
+        self.resources.update({name: val})
+
+    async def get(self, resource: ResourceDescriptor) -> Any:
+        with self.resolution_scope():
+            return await self._get(resource)
+
+    async def _get(self, resource: ResourceDescriptor) -> Any:
+        state = _RESOLUTION.get()
+        assert state is not None and state.manager is self
+
+        # Cycle detection
+        if resource.name in state.resolving:
+            chain = " -> ".join(state.resolving) + f" -> {resource.name}"
+            raise ValueError(f"Circular resource dependency detected: {chain}")
+
+        # Check cache first (before marking as resolving)
+        if resource.cache and resource.name in self.resources:
+            return self.resources[resource.name]
+        if resource.name in state.cache:
+            return state.cache[resource.name]
+
+        # Mark as resolving for cycle detection
+        state.resolving.append(resource.name)
+        try:
+            val = await resource.resolve(self)
+            if resource.cache:
+                await self.set(resource.name, val)
+            state.cache[resource.name] = val
+            return val
+        finally:
+            if resource.name in state.resolving:
+                state.resolving.remove(resource.name)
+
+    def get_all(self) -> dict[str, Any]:
+        """Return all materialized resources."""
+        return self.resources
+'''
+
 _FIXED = _HEAD + _FIXED_CLASS
 
 
@@ -966,6 +1042,7 @@ _OLD = _class_text()
 TWINS = [
     # ---- relative to the repaired manager (the pinned class already violates R1/R2 at every bookkeeping attribute)
     Twin("repair: task-local resolution state + per-name creation lock", _P, _OLD, _FIXED, None),
+    Twin("proposed patch for R1 only (task-local bookkeeping; the R2 finding stays, nothing new)", _P, _OLD, _PATCH_R1, None),
     Twin("repair with the chain threaded through a task-keyed table", _P, _OLD, _variant(
         ("        self._creating: dict[str, asyncio.Lock] = {}\n", "        self._creating: dict[str, asyncio.Lock] = {}\n        self._seen: dict[Any, int] = {}\n"),
         ("        resolving.append(resource.name)\n        try:\n", "        resolving.append(resource.name)\n        self._seen[asyncio.current_task()] = len(resolving)\n        try:\n"),
